@@ -17,6 +17,7 @@ RULE = (
     "against the input; (ii) scale(a x+b) == |a| scale(x), z(a x+b) == sign(a) z(x) on lanes with a safely non-zero scale; (iii) all z-scores "
     "finite. A long-lane lane repeats (i)-(iii) on shapes (4500,) and (3,4300) for every scale method (2 maps). Non-trivial = every case with axis handling (2-D) or a non-identity map"
 )
+SCALE_LANE = 'shapes (4500,) and (3, 4300) x every scale method x {normal, ties} x 2 affine maps'
 ASSUMPTIONS = [
     "equivariance is asserted only on lanes whose scale estimate exceeds 1e-6 of the lane's spread (on a zero-scale lane the unit-scale fall-back makes it impossible by design); there only finiteness is required",
     "offsets are tied to |a| (b in {0,-7|a|,50|a|}) so that the float32 cast inside estimate_zscore is not the dominant error; tolerances 1e-9 (scale, float64) and 1e-4 (z-scores, float32)",
